@@ -47,6 +47,7 @@ enum Point : int
   BW_AFTER_FAILURE_CHECK = 32,
   BW_BEFORE_CLEANUP_CTX = 33,
   BW_BEFORE_CLEANUP_LOGGERS = 34,
+  BW_CLEANUP_CTX_SCAN = 35, // inside _cleanup_invalidated_thread_contexts, right before the scan for removable contexts
   BW_EXIT_ENTER = 40,
   BW_EXIT_DONE = 41
 };
